@@ -49,6 +49,10 @@ CLAIMED = {
             "Twelve theorems (Props/C08.v). partial: first-order spline values and float polynomials are tied to the code by bit-exact correspondence (every knot, both end points, midpoints, outside), not by a closed-form real-valued theorem; float ** n (n >= 2) is libm and excluded.",
             "Trusted: Coq kernel+VM; Flocq 4.1 (+ standard-library real axioms); CPython float arithmetic and the built-in sum() algorithm as modelled. Genuine defect F5 found by this check and repaired by a fix: commit.",
             "DESIGN.md section 4 C08"),
+    "C07": ("Coq proof (binary = left-padded bit slice; string raw buffer = bit slice right-padded with zeros, by bit-string lemmas; whole / first-terminator / leading-size text; cursor + computed length; first-match lookup; linear adjustment exact below 2^53 via Flocq Bmult/Bplus/Btrunc correctness) + kernel-evaluated correspondence with String/BinaryDataEncoding.parse_value over 8 charsets",
+            "Eleven theorems (Props/C07.v). partial: text decoding is a modelled codec (ASCII, Latin-1, cp1252 subset, UTF-8, UTF-16/32 LE/BE without surrogates) tied to Python's codecs by correspondence; bytewise terminator search in multi-byte charsets mirrors the code (F15 noted in DESIGN).",
+            "Trusted: Coq kernel+VM; Flocq 4.1 and the standard-library real axioms (length arithmetic); CPython codecs. Genuine defect F6 found by this check and repaired by a fix: commit.",
+            "DESIGN.md section 4 C07, 8.4"),
 }
 PENDING_REASON = "check not built yet in this round; design in DESIGN.md section 4 (no technique switch planned)"
 
